@@ -983,7 +983,7 @@ Definition lex_unicode_class (fold : bool) (r : cbuild) (s : str) : res (cbuild 
           let name := firstn (e - 3) (skipn 3 s) in
           if check_utf8 O name then Ok (name, skipn (S e) s) else Err ErrUTF8
         end
-      else Ok (firstn (length t - length t1) t, t1) in
+      else Ok (firstn (Z.to_nat (snd (decode t))) t, t1) in   (* the bytes of the rune: s[2 : len(s)-len(t1)] *)
     match found with
     | Err e => Err e
     | OutOfFuel => OutOfFuel
@@ -1063,11 +1063,11 @@ Fixpoint class_loop (fuel : nat) (fold : bool) (t : str) (first : bool) (class :
     end
   end.
 
-(* parseClass up to the push: s begins with '[' *)
-Definition lex_class (fold : bool) (s : str) : res (cls * str) :=
+(* parseClass up to the push: s begins with '['; the fuel is more than the length of s *)
+Definition lex_class (fuel : nat) (fold : bool) (s : str) : res (cls * str) :=
   let t := tl s in
   let '(negated, t) := match t with c :: t' => if c =? 94 then (true, t') else (false, t) | [] => (false, t) end in
-  match class_loop (S (length t)) fold t true [] with
+  match class_loop fuel fold t true [] with
   | Ok (class, rest) =>
     let c := clean_class (cb_done class) in
     Ok ((if negated then negate_class c else c), rest)
@@ -1131,8 +1131,9 @@ Definition lex_perl_flags (flags : Z) (s : str) : res (token * str) :=
   | _ => plain
   end.
 
-(* the text of one turn of the parse loop: t = b :: t' *)
-Definition lex (flags : Z) (b : Z) (t' : str) : res (token * str) :=
+(* the text of one turn of the parse loop: t = b :: t'; the fuel (for the loop of a bracket expression) is more
+   than the length of t' *)
+Definition lex (fuel : nat) (flags : Z) (b : Z) (t' : str) : res (token * str) :=
   let t := b :: t' in
   let fold := has flags fFoldCase in
   let lazy_of (after : str) : bool * str :=
@@ -1148,7 +1149,7 @@ Definition lex (flags : Z) (b : Z) (t' : str) : res (token * str) :=
     else if b =? 36 then Ok (TDollar, t')
     else if b =? 46 then Ok (TDot, t')
     else if b =? 91 then
-      match lex_class fold t with
+      match lex_class fuel fold t with
       | Ok (c, rest) => Ok (TClass c, rest)
       | Err e => Err e
       | OutOfFuel => OutOfFuel
@@ -1272,7 +1273,7 @@ Fixpoint parse_loop (fuel : nat) (t : str) (last_repeat : bool) (p : pst) : res 
     match t with
     | [] => Ok p
     | b :: t' =>
-      match lex (p_flags p) b t' with
+      match lex fuel' (p_flags p) b t' with
       | Err e => Err e
       | OutOfFuel => OutOfFuel
       | Ok (tok, rest) =>
